@@ -139,7 +139,7 @@ def check_C16(tier, seed):
                           text=json.dumps(r), tags={"value", "untagged"} | ({"enum_value"} if has_enum else set()), replay={"value": v, "result": r})
     # (c) compiled queries of the semantic universe
     insts = universe.semantic_universe("quick" if tier == "quick" else "thorough", seed + 300)
-    if tier == "quick": insts = insts[:1200]
+    if tier == "quick": insts = universe.spread(insts, 1200)
     obs = observe(insts, wd, "irrt", seed)
     nq = 0
     for inst, o in zip(insts, obs):
